@@ -235,8 +235,7 @@ def search(ctx, broken, disagreements):
         if bad:
             out.append({'spec': c['spec'], 'ray': c['ray'], 'oracle': bad[:4], 'violates_property': True})
     # witnesses that are NOT the listed Chebyshev finding first (the driver reports the first unlisted one)
-    listed = {'id': 'chebyshev-normal-norm'}
-    out.sort(key=lambda w: matches_finding(w, listed))
+    out.sort(key=lambda w: matches_finding(w, {'id': 'chebyshev-normal-norm'}) or matches_finding(w, {'id': 'paraboloid-axis-parallel-behind-ray'}))
     return out[:12] or None
 
 
@@ -254,9 +253,11 @@ CHEB_REPLAY = {
 def matches_finding(w, f):
     """a witness is the listed Chebyshev finding only if EVERY oracle complaint is a Snell / half-space /
     reflection-law residual at a Chebyshev surface whose normalisation differs from 1 (wrong surface normal)"""
+    orc = w.get('oracle') or []
+    if f['id'] == 'paraboloid-axis-parallel-behind-ray':
+        return bool(orc) and all(isinstance(v, dict) and v.get('kind') == 'behind-ray' and v.get('a_is_zero') is True for v in orc)
     if f['id'] != 'chebyshev-normal-norm':
         return False
-    orc = w.get('oracle') or []
     if not orc:
         return False
     for v in orc:
@@ -268,9 +269,24 @@ def matches_finding(w, f):
     return True
 
 
+A0_REPLAY = {
+    'object_thickness': float('inf'),
+    'surfaces': [{'type': 'standard', 'radius': float('inf'), 'thickness': 0.01, 'material': 'air', 'is_stop': True},
+                 {'type': 'standard', 'radius': -20.0, 'conic': -1.0, 'thickness': 30.0, 'material': ['ideal', 1.5, 0.0]}],
+    'aperture': ['EPD', 6.0], 'field_type': 'angle', 'fields': [[0.0, 0.0, 0.0, 0.0]],
+    'wavelengths': [[0.55, True]], 'telecentric': False}
+
+
 def replay_finding(ctx, f):
     import lensgen, tracecorr, oracles, warnings
     warnings.simplefilter('ignore')
+    if f['id'] == 'paraboloid-axis-parallel-behind-ray':
+        o = lensgen.build(A0_REPLAY)
+        r = tracecorr.impl_trace(o, 0.0, 0.0, 0.0, 0.7, 0.55)
+        if r[0] != 'ok':
+            return None
+        bad = oracles.check_trace(lensgen.model_surfaces(o, 0.55), r[1])
+        return any(v['kind'] == 'behind-ray' and v.get('a_is_zero') for v in bad)
     if f['id'] != 'chebyshev-normal-norm':
         return None
     o = lensgen.build(CHEB_REPLAY)
